@@ -33,8 +33,9 @@ def close_all():
 class Session:
     HORIZON = 1e12
 
-    def __init__(self, backend, config=None, storage_options=None, max_limit=6000, subscriber=True, second_worker=False):
+    def __init__(self, backend, config=None, storage_options=None, max_limit=6000, subscriber=True, second_worker=False, analysis_full=False):
         self.backend = backend
+        self.analysis_full = analysis_full
         self.second_worker = second_worker
         self.st2 = None
         so = dict(storage_options or {})
@@ -42,6 +43,10 @@ class Session:
         self.w = World(backend, config=config, storage_options=so, max_limit=max_limit, message_timeout=1e300, _session=True)
         self.with_subscriber = subscriber
         self._raw = None
+        if analysis_full and backend == "kv":
+            from . import kvdoubles
+
+            kvdoubles.analysis_queue_full(self.w.ns.kv, True)
         if backend == "sql":
             # production pools several connections (and hands them out round-robin): open two of them so that successive
             # operations of a sequential session really alternate between connections
@@ -73,6 +78,10 @@ class Session:
             self._s_mark = len(self.cs.transcript)
 
     def close(self):
+        if self.analysis_full and self.backend == "kv":
+            from . import kvdoubles
+
+            kvdoubles.analysis_queue_full(self.w.ns.kv, False)
         if self._raw is not None:
             self._raw.close()
             self._raw = None
